@@ -297,6 +297,19 @@ class ContractEval:
         for ins in b["instrs"]:
             if ins["op"] == "Phi" and ins.get("comment") and ins["n"] in regs:
                 env[ins["comment"]] = TV(regs[ins["n"]], self.ev.ty_of(ins["t"]))
+        # `for i := range s`: go/ssa names the counter "rangeindex" (last index processed, -1 at first); the source key
+        # i at the loop head is rangeindex+1 = iterations completed, which is what `i` means at the head of the
+        # three-clause form - so an invariant over `i` reads the same for both spellings of the loop
+        keys = f.d.get("rangekeys") or []
+        rloops = [blk for blk in f.blocks if (blk.get("comment") or "").startswith("range") and (blk.get("comment") or "").endswith(".loop")]
+        if len(keys) == len(rloops):
+            for key, blk in zip(keys, rloops):
+                if not key or blk.get("comment") != "rangeindex.loop":
+                    continue
+                for ins in blk["instrs"]:
+                    if ins["op"] == "Phi" and ins.get("comment") == "rangeindex" and ins["n"] in regs and key not in env:
+                        v = regs[ins["n"]]
+                        env[key] = TV(v + 1, self.ev.ty_of(ins["t"]))
         # values that are not phis have no source name in go/ssa: the k-th make([]T) of the function is $make<k>
         k = 0
         for blk in f.blocks:
